@@ -705,7 +705,8 @@ class Evolver:
                                                                           {"name": "xy", "type": {"kind": "or", "items": [N_, L_("vfC")]}, "optional": True}]})
             self.new_structs.append(owner)
             self.edits.append({"edit": "E1-new-structure", "name": owner, "properties": ["abc", "xy"]})
-            mixed_in = sorted({r["name"] for s_ in self.doc["structures"] for r in s_.get("mixins", []) if r["name"] in self.base_structs})
+            mixed_in = sorted({r["name"] for s_ in self.doc["structures"] for r in s_.get("mixins", []) if r["name"] in self.base_structs}
+                              - self.union_alternatives)   # (property edits stay off the alternatives of general unions and their ancestors)
             if mixed_in:
                 target = self.pick(mixed_in)
                 st_ = next(s_ for s_ in self.doc["structures"] if s_["name"] == target)
@@ -891,7 +892,7 @@ class Evolver:
                 self.new_structs.append(s_["name"])
                 self.edits.append({"edit": "E1-new-structure", "name": s_["name"], "properties": [p_["name"] for p_ in s_["properties"]]})
             # ... and a literal whose class would be called like the class of a message: <Stem>.response next to <Stem>Request
-            stems = sorted({m["typeName"][:-7] for m in self.doc["requests"] if m.get("typeName", "").endswith("Request")} & set(self.base_structs))
+            stems = sorted(({m["typeName"][:-7] for m in self.doc["requests"] if m.get("typeName", "").endswith("Request")} & set(self.base_structs)) - self.union_alternatives)
             stems = [x for x in stems if all(q["name"] != "response" for st_ in self.doc["structures"] if st_["name"] == x for q in st_["properties"])]
             if stems:
                 target = self.pick(stems)
